@@ -40,6 +40,24 @@ class C09(WigBedProp):
             tags.add(kind)
             tags.add("zooms_" + str(o["zooms"]).split(",")[0])
             out.append(CaseT(f"f{k}", kind, [], [bbgen.opt_line(o)] + lines, self.common_tags(o, names, data, tags)))
+        # chromosomes whose encoded sections fill the per-chromosome BufWriter (8 KiB) several times, written concurrently
+        # under seeded delays: the output file is handed to a chromosome in the MIDDLE of its writes (the staging buffer's
+        # mid-stream path), in temp-file and in-memory staging
+        for k3 in range(24 if tier == "thorough" else 6):
+            r = rng.fork(f"spill{k3}")
+            kind = "wig" if k3 % 2 == 0 else "bed"
+            names = ["chrA", "chrB", "chrC", "chrD"][: r.choice([2, 3, 4])]
+            sizes = {n: 400000 for n in names}
+            if kind == "bed":
+                data = {n: [(i * 9, i * 9 + 5, "name%d\t%d" % (i, i % 1000)) for i in range(r.range(1500, 3000))] for n in names}
+                lines = bbgen.bed_lines(names, sizes, data)
+            else:
+                data = {n: [(i * 9, i * 9 + 4, bbgen.f32bits(float(1 + (i * 7919 + j) % 251))) for i in range(r.range(2500, 5000))] for j, n in enumerate(names)}
+                lines = bbgen.wig_lines(names, sizes, data)
+            o = {"compress": r.choice([0, 1]), "ips": r.choice([64, 1024]), "bs": r.choice([5, 256]), "zooms": r.choice(["10,40", "none", "auto"]),
+                 "pass": r.choice([1, 2]), "inmem": 0 if k3 % 3 else 1, "rt": "mt", "threads": r.choice([2, 4]), "chan": r.choice([0, 1, 100]),
+                 "src": r.choice(["iter", "par"]), "sort": "all", "delay": r.range(1, 1 << 30)}
+            out.append(CaseT(f"spill{k3}", kind, [], [bbgen.opt_line(o)] + lines, self.common_tags(o, names, data, {kind, "chromosomes_spill_bufwriter"})))
         # more chromosomes than the default block size of the chromosome tree and of the indexes (256)
         for k2, kind in enumerate(("wig", "bed") if tier != "thorough" else ("wig", "bed", "wig", "bed")):
             r = rng.fork(f"manychroms{k2}")
